@@ -507,6 +507,10 @@ func (ex *Exec) evalLoc(e Expr, st *State, env *Env) []modItem {
 		if id, ok := x.Fun.(EIdent); ok && id.Name == "ghost" {
 			// ghost(name, ref): ghost per-object state
 			n := x.Args[0].(EIdent).Name
+			if id, ok := x.Args[1].(EIdent); ok && id.Name == "all" {
+				// ghost(name, all): the ghost field of every object
+				return []modItem{{keyPrefix: "ghost<" + n + ">", exact: true, level: 0}}
+			}
 			r := ex.scalarOf(ex.eval(x.Args[1], st, env).V)
 			return []modItem{{keyPrefix: "ghost<" + n + ">", exact: true, level: 1, ref: r}}
 		}
